@@ -1,0 +1,50 @@
+//go:build verif
+
+package client
+
+// Contracts for /verif (govc).  No code here.
+// ioctl numbers are the Linux ABI values: _IOWR('T', 1, struct tdx_report_req
+// /* 1088 bytes */) and _IOWR('T', 2, struct tdx_quote_req /* 16 bytes */).
+
+//@ const IOC_GET_REPORT = 0xC4405401
+//@ const IOC_GET_QUOTE = 0xC0105402
+
+//@ define reportReq(argument) = as(argument, "*linuxabi.TdxReportReq")
+//@ define quoteReq(argument) = as(argument, "*linuxabi.TdxQuoteReq")
+//@ define quoteHdr(argument) = as(quoteReq(argument).Buffer, "*linuxabi.TdxQuoteHdr")
+
+//@ func getReport(d, reportData) (r, err)
+//@   inline
+
+//@ func getRawQuoteViaDevice(d, reportData) (r, err)
+//@   requires d != nil
+//@   ensures[relay-in] ioctl[0].happened && before(ioctl[0], command == IOC_GET_REPORT && typeis(argument, "*linuxabi.TdxReportReq")
+//@ |       && seq(reportReq(argument).ReportData) == seq(reportData))
+//@   ensures[relay-report] ioctl[1].happened ==> before(ioctl[1], command == IOC_GET_QUOTE && typeis(argument, "*linuxabi.TdxQuoteReq")
+//@ |       && typeis(quoteReq(argument).Buffer, "*linuxabi.TdxQuoteHdr") && quoteReq(argument).Length == 16384
+//@ |       && quoteHdr(argument).InLen == 1024 && quoteHdr(argument).Status == 0 && quoteHdr(argument).Version == 1
+//@ |       && seq(quoteHdr(argument).Data)[0:1024] == after(ioctl[0], seq(reportReq(argument).TdReport)))
+//@   ensures[no-third-call] !ioctl[2].happened
+//@   ensures[ok] err == nil <==> ioctl[1].happened && after(ioctl[0], err == nil && res == 0)
+//@ |       && after(ioctl[1], err == nil && res == 0 && quoteHdr(argument).Status == 0
+//@ |            && quoteHdr(argument).OutLen > 0 && quoteHdr(argument).OutLen <= 16384)
+//@   ensures[data] err == nil ==> seq(r) == after(ioctl[1], seq(quoteHdr(argument).Data)[0:int(quoteHdr(argument).OutLen)])
+
+//@ func getRawQuoteViaProvider(qp, reportData) (r, err)
+//@   requires qp != nil
+//@   ensures[asks-support] issupported[0].happened
+//@   ensures[verbatim] after(issupported[0], err == nil) ==> getrawquote[0].happened
+//@ |       && r == after(getrawquote[0], r) && err == after(getrawquote[0], err) && !ioctl[0].happened
+//@   ensures[provider-input] getrawquote[0].happened ==> before(getrawquote[0], seq(reportData) == seq(reportData))
+//@   ensures[no-provider-call] after(issupported[0], err != nil) ==> !getrawquote[0].happened
+
+//@ func fallbackToDeviceForRawQuote(reportData) (r, err)
+//@   inline
+
+//@ func GetRawQuote(quoteProvider, reportData) (r, err)
+//@   records getrawquote_api
+
+//@ func GetQuote(quoteProvider, reportData) (q, err)
+//@   ensures[parsed] err == nil ==> getrawquote_api[0].happened && after(getrawquote_api[0], err == nil)
+//@ |       && typeis(q, "*tdx.QuoteV4") && quoteFields(as(q, "*tdx.QuoteV4"), after(getrawquote_api[0], seq(r)))
+//@   ensures[errors] getrawquote_api[0].happened && after(getrawquote_api[0], err != nil) ==> err != nil
